@@ -23,13 +23,12 @@ func init() {
 	})
 }
 
-func runC15(c *Ctx) {
-	m := c.Root()
+// c15Length: every value EncodeStack returns is at most maxNameLen bytes (shared with C14.name-cap).
+func c15Length(c *Ctx, m *Module, rule string) {
 	r := c.R
 	enc := m.Func("internal/counter", "EncodeStack")
 	maxName := int64(0)
 	fmt.Sscan(m.ConstVal("internal/counter", "maxNameLen"), &maxName)
-
 	// ---- length --------------------------------------------------------------
 	for _, b := range enc.Blocks {
 		ret, ok := b.Instrs[len(b.Instrs)-1].(*ssa.Return)
@@ -64,21 +63,32 @@ func runC15(c *Ctx) {
 			if strings.Contains(d, "slice(") {
 				kind = "truncated"
 			}
-			r.Check("C15.length", "EncodeStack/"+kind+" result is at most maxNameLen bytes", m.Pos(ret.Pos()), ok, "need maxNameLen − len(result) ≥ 0: "+why+"; result "+shortDesc(d))
+			r.Check(rule, "EncodeStack/"+kind+" result is at most maxNameLen bytes", m.Pos(ret.Pos()), ok, "need maxNameLen − len(result) ≥ 0: "+why+"; result "+shortDesc(d))
 			if kind == "truncated" {
 				// ends with a marker constant containing "truncated" and a newline on both sides
 				marker := ""
 				if bo, ok := strip(e.v).(*ssa.BinOp); ok && bo.Op == token.ADD {
 					marker, _ = constOf(bo.Y)
 				}
-				r.Check("C15.length", "EncodeStack/truncation is visibly marked", m.Pos(ret.Pos()), strings.Contains(marker, "truncated") && strings.HasPrefix(marker, "\n") && strings.HasSuffix(marker, "\n"),
+				r.Check(rule, "EncodeStack/truncation is visibly marked", m.Pos(ret.Pos()), strings.Contains(marker, "truncated") && strings.HasPrefix(marker, "\n") && strings.HasSuffix(marker, "\n"),
 					fmt.Sprintf("the truncated name must end with a marker line; got %q", marker))
 			}
 		}
 	}
-	r.Floor("C15.length", 2)
+	r.Floor(rule, 2)
 	// bounds of EncodeStack's own slice expression
-	boundsObligationsT(r, m, "C15.length", enc, nil)
+	boundsObligationsT(r, m, rule, enc, nil)
+
+}
+
+func runC15(c *Ctx) {
+	m := c.Root()
+	r := c.R
+	enc := m.Func("internal/counter", "EncodeStack")
+	maxName := int64(0)
+	fmt.Sscan(m.ConstVal("internal/counter", "maxNameLen"), &maxName)
+
+	c15Length(c, m, "C15.length")
 
 	// ---- separator ---------------------------------------------------------------
 	sepSites := 0
